@@ -27,7 +27,7 @@ func init() {
 			"Blind independence: after honest evaluation and finalization the token bytes are identical for every blind of the set and on a repeated run, and equal the reference authenticator (circl FullEvaluate / deterministic PSS verified by crypto/rsa). " +
 			"Interop: for each issuance of the shipped Rust vectors the request equals the slice of the vector's token_request cut by the harness's parser, the token from pat-go's issuer equals the vector's token, and the vector's token_response entry finalizes to the same token. " +
 			"distinct_nontrivial = distinct (type, key, input, blind class) cases",
-		Floors:      []string{"pure_requests", "blind_independent_token_sets", "rust_request_bytes_equal", "rust_token_equal", "rust_response_finalizes", "type1_cases", "type2_cases", "type5_cases", "invalid_blind_is_error", "argument_buffers_reused_after_creation"},
+		Floors:      []string{"pure_requests_for_other_salt_shapes", "pure_requests", "blind_independent_token_sets", "rust_request_bytes_equal", "rust_token_equal", "rust_response_finalizes", "type1_cases", "type2_cases", "type5_cases", "invalid_blind_is_error", "argument_buffers_reused_after_creation"},
 		Assumptions: []string{"the Rust vectors shipped in the repository are the independent implementation's output"},
 		Run:         runC11,
 	})
@@ -194,6 +194,35 @@ func runC11(c *core.Ctx) {
 							bad("type2:token-depends-on-blind", "the finalized token differs between blinds for the same key, challenge, nonce and salt", d)
 							return
 						}
+					}
+					// salts of other shapes - none (nil), empty, shorter and longer than the hash: whatever the client makes of
+					// them, it makes the same of them every time (the same request bytes, or an error both times)
+					for name, sv := range map[string][]byte{"nil": nil, "empty": {}, "1": r.Bytes(1), "20": r.Bytes(20), "32": r.Bytes(32), "47": r.Bytes(47), "49": r.Bytes(49), "64": r.Bytes(64)} {
+						blind := RSABlind(r, 3, key)
+						c.Eval(1)
+						var e1, e2 error
+						var q1, q2 []byte
+						st, e1 := type2.NewBasicPublicClient().CreateTokenRequestWithBlind(chal, nonce, kid, iss.TokenKey(), blind, sv)
+						if e1 == nil {
+							q1 = clone(st.Request().Marshal())
+						}
+						var sv2 []byte
+						if sv != nil {
+							sv2 = clone(sv)
+							if len(sv) == 0 {
+								sv2 = []byte{}
+							}
+						}
+						st2, e2 := type2.NewBasicPublicClient().CreateTokenRequestWithBlind(clone(chal), clone(nonce), clone(kid), iss.TokenKey(), clone(blind), sv2)
+						if e2 == nil {
+							q2 = clone(st2.Request().Marshal())
+						}
+						if (e1 == nil) != (e2 == nil) || !bytes.Equal(q1, q2) {
+							d["salt_shape"] = name
+							bad("type2:impure-request:salt-shape", "CreateTokenRequestWithBlind is not a pure function of its arguments for a salt of this shape ("+name+")", d)
+							return
+						}
+						c.Class("pure_requests_for_other_salt_shapes")
 					}
 					// a different salt must give a different token (the salt is applied)
 					st3, err := type2.NewBasicPublicClient().CreateTokenRequestWithBlind(chal, nonce, kid, iss.TokenKey(), RSABlind(r, 7, key), r.Bytes(48))
